@@ -14,7 +14,7 @@ R-RES-5 fresh atom / fair label names are guarded by a membership loop over
 from ..program import AnalysisError, Inconclusive, ClassInfo
 from ..values import (Const, Sym, CRef, FRef, Bound, Obj, Tup, App, New,
                       Raise, Coll, walk)
-from ..interp import Interp, Hooks, is_private_helper
+from ..interp import Interp, Hooks, is_private_helper, prologue_helpers
 from ..galg import GraphHooks
 from ..report import Finding, RuleResult, floor, Attempts
 from . import c01, c07
@@ -109,7 +109,7 @@ def rule_res1(prog, E):
             self.graph_init(prog)
 
         def inline(self, I, fi, args):
-            return fi is f
+            return fi is f or fi.qn in prologue_helpers(f)
     I = Interp(prog, H(), rule='R-RES-1')
     path = I.new_path()
     k = Sym('kripke', ('inst', prog.cls('kripke.Kripke')))
@@ -137,6 +137,11 @@ def rule_res1(prog, E):
                     for pp in left.parts) and bool(left.parts)
         r.inst(entry=f.short(), returns=repr(I.snapshot(v, p))[:200],
                is_fresh_set=ok, subset_of_states=prov)
+        if not ok and isinstance(v, App) and v.op in ('call', 'mcall'):
+            # the result of a routine that is not interpreted here
+            pending.append(Inconclusive(
+                'R-RES-1', 'LTL.modelcheck returns %r' % (v,), f.where()))
+            continue
         if ok:
             r.ok()
         else:
